@@ -152,3 +152,12 @@ claim("C02", ENGINE_A + "; A-TAG / A-MAP / A-NOEXTRA oracles; B-SIZED region ana
       "emitters delete declared keys before collecting additional properties. Value equality after a round trip, numeric precision, RFC 3339 conformance and encoding/json's key matching are runtime "
       "quantities and are NOT decided. Two known findings (shared with C03).",
       "as C06", "DESIGN.md §2 C02")
+
+claim("C14", "abstract interpretation of Caser.Identifierize over all strings of rune classes up to a length bound (A-IDENT, exhaustive up to the bound); " + ENGINE_A + " with identifier-coincidence forking",
+      "Decides (1) for EVERY string of Unicode rune classes up to the bound (15 classes: the atoms of the unicode predicates refined by case mapping and Go's identifier grammar) that the synthesised "
+      "identifier is non-empty, starts with an upper-case letter and contains only identifier characters — exact, because the code reads runes only through those predicates; (2) over families of sibling "
+      "properties, goJSONSchema.identifier overrides (also equal to each other or to a sibling's identifier) and definitions referring to each other in three visiting orders, with every coincidence of "
+      "synthesised identifiers explored as a world (transitively consistent), that the emitted file still type-checks (distinct field and type names) and binds every field's tags to its own raw name. "
+      "Three known findings (caseless-mapping lower-case first letter; non-decimal numerals; a colliding definition met while the first is in progress is declared under the same name).",
+      "as C01; Identifierize is replaced by its specification only inside the schema families, its own behaviour is what A-IDENT decides",
+      "DESIGN.md §2 C14")
